@@ -234,6 +234,7 @@ recurseTail:
 	// quax = false
 
 	intp.NumOps++
+	intp.verifStep()
 	if intp.MaxOps > 0 && intp.NumOps > intp.MaxOps {
 		return ErrExecutionLimitExceeded
 	}
